@@ -38,8 +38,24 @@ func refIP4At(buf []byte, o int) (res int, end int, vals [4]int) {
 	return 1, p, vals
 }
 
-func H_C20_prefix(n int, dl int) {
-	buf := vBytes(n)
+func H_C20_prefix(n int, dl int) { c20prefix(vBytes(n), dl) }
+
+// H_C20_prefix_full: four groups of g symbolic bytes separated by dots and
+// followed by tail symbolic bytes (g = 3: the longest possible address).
+func H_C20_prefix_full(g, tail int) {
+	var buf []byte
+	for i := 0; i < 4; i++ {
+		if i > 0 {
+			buf = append(buf, '.')
+		}
+		buf = append(buf, vBytes(g)...)
+	}
+	buf = append(buf, vBytes(tail)...)
+	c20prefix(buf, 4)
+}
+
+func c20prefix(buf []byte, dl int) {
+	n := len(buf)
 	var dstArr [5]byte
 	dst := dstArr[:dl]
 	ok, o, e := IP4Prefix(buf, dst)
